@@ -112,6 +112,15 @@ class HGen:
             e["annOnly"] = True     # spelled `name: F(...)` with no assignment
         if not allow_default or d["k"] in NO_DEFAULT_KINDS or '"k": "struct"' in json.dumps(d):
             return e     # defaults that are / contain Structure instances are out of scope
+        if rng.random() < 0.06:
+            # a literal None as default: `default=None` is no default at all; `name: F = None` is validated against F
+            # (refused unless F admits None) and then is no default either (`_default is None`)
+            if rng.random() < 0.5 and d["k"] in KW_DEFAULT_KINDS:
+                e["kw"] = {"lit": None}
+            else:
+                e["eq"] = {"lit": None}
+                e.pop("annOnly", None)
+            return e
         r = rng.random()
         if r < 0.55:
             return e
